@@ -33,6 +33,13 @@ func c15scenario(c c15cfg) *explore.Scenario {
 	sc.Cfg.Horizon = 60 * time.Second
 	gaps := []time.Duration{0, time.Millisecond, 99 * time.Millisecond, 101 * time.Millisecond, time.Second}
 	sizes := []int{c.burst, c.burst / 2, 1, c.burst + 1, 0}
+	if c.setter == "rate-again" {
+		// a backlogged filter: a gap of a third of the time the bucket needs to fill credits less than the queued
+		// half-burst datagram needs, twice that credit would be enough
+		third := time.Duration(float64(c.burst) / (float64(c.rate) / 8) * 0.3 * float64(time.Second))
+		gaps = []time.Duration{0, third}
+		sizes = []int{c.burst, c.burst / 2, 1}
+	}
 	sc.Make = func() (func(), func(*zzvsched.Exec) (string, *explore.Violation)) {
 		rec := vnet.ZZNewRecNIC()
 		var script []string
@@ -64,6 +71,15 @@ func c15scenario(c c15cfg) *explore.Scenario {
 					if c.setter == "rate" {
 						rate2 = c.rate / 4
 						f.Set(vnet.TBFRate(rate2))
+					} else if c.setter == "rate-again" {
+						// the rate in force is set again, twice: nothing changes.  The setter may begin later (a sleeping
+						// thread is not a stalled one), at the instant of a later arrival
+						if zzvsched.Choose(2) == 1 {
+							zzvsched.Sleep(gaps[1])
+						}
+						setStart = zzvsched.Elapsed()
+						f.Set(vnet.TBFRate(c.rate))
+						f.Set(vnet.TBFRate(c.rate))
 					} else if c.setter == "burst-down-up" {
 						// lowered, then restored with the option Set returned: the larger value governs throughout
 						prev := f.Set(vnet.TBFMaxBurst(c.burst / 4))
@@ -269,6 +285,7 @@ func init() {
 					out = append(out, c15scenario(c15cfg{rate: r, burst: b, queue: 50000, n: n - 1, setter: "rate", bound: 1}))
 					out = append(out, c15scenario(c15cfg{rate: r, burst: b, queue: 50000, n: n - 1, setter: "burst", bound: 1}))
 					out = append(out, c15scenario(c15cfg{rate: r, burst: b, queue: 50000, n: n - 1, setter: "burst-down-up", bound: 1}))
+					out = append(out, c15scenario(c15cfg{rate: r, burst: b, queue: 50000, n: 3, setter: "rate-again", bound: 1}))
 					out = append(out, c15scenario(c15cfg{rate: r, burst: b, queue: 50000, n: n - 1, setter: "close", bound: 2}))
 					out = append(out, c15scenario(c15cfg{rate: r, burst: b, queue: 50000, n: n - 1, setter: "close-concurrent", bound: 1}))
 				}
@@ -288,7 +305,7 @@ func init() {
 			}
 			return out
 		},
-		Rule: "rates {8 kbit/s, 1 Mbit/s} x bursts {1000, 8000 B} x queue sizes {2000, 50000 B} x every arrival script of 3 (thorough 4) datagrams over gaps {0,1ms,99ms,101ms,1s} and sizes {0,1,B/2,B,B+1}, optionally with a concurrent Set(rate/4) or Set(burst/4) placed at every scheduling point, or with Close called right behind the last arrival while the loop may still be forwarding, or from a separate thread at any point of the arrivals; every pair of forwarded datagrams bounds an interval for which the byte count is compared with burst + rate x length",
+		Rule: "rates {8 kbit/s, 1 Mbit/s} x bursts {1000, 8000 B} x queue sizes {2000, 50000 B} x every arrival script of 3 (thorough 4) datagrams over gaps {0,1ms,99ms,101ms,1s} and sizes {0,1,B/2,B,B+1}, optionally with a concurrent Set(rate/4), Set(burst/4) or Set(the rate in force, twice, on a backlogged filter with gaps of a third of the bucket's fill time) placed at every scheduling point, or with Close called right behind the last arrival while the loop may still be forwarding, or from a separate thread at any point of the arrivals; every pair of forwarded datagrams bounds an interval for which the byte count is compared with burst + rate x length",
 		Assumptions: []string{"across a reconfiguration the larger rate/burst applies unless the change completed before the interval began (most lenient sound reading)",
 			"a discard counts as 'queue full' when queued bytes + packet length reach the configured queue size"}})
 }
